@@ -603,6 +603,17 @@ def gen_spec(rng, size="small"):
         mb.insert(rng.randrange(len(mb) + 1), {"title": "Missing page", "rev": None, "chapter": None})
     if rng.random() < 0.15:
         mb.append(dict(rng.choice(mb)))  # the same article twice
+    if rng.random() < 0.2:
+        # the same article both unpinned and at a pinned (often older) revision
+        multi = [t for t in anames if len(pages[t]["revs"]) >= 2]
+        if multi:
+            t = rng.choice(multi)
+            have = {(it["title"], it["rev"]) for it in mb}
+            for rev in (None, rng.choice(pages[t]["revs"][:-1])[0]):
+                if (t, rev) not in have:
+                    mb.insert(rng.randrange(len(mb) + 1), {"title": t, "rev": rev, "chapter": None})
+                    if rev is not None:
+                        pinned_older.add(t)
     # exclusion from the property's quantifier: a redirect's target is not at the same time
     # listed with an older pinned revision
     site = Site(LOCAL_HOST, lang, pages, {}, {})
